@@ -1,6 +1,7 @@
 """C12: evaluation / trace domain generators have exactly the right order (complete enumeration)."""
 import os
 import vf
+from checks import common
 
 
 def run(tier, opts):
@@ -25,21 +26,8 @@ def run(tier, opts):
         ck.violation(f"panic:t={r['t']},c={r['c']}", "StarkDomains::new panicked: " + r["where"], r)
     good = [r for r in recs if r["ev"] == "domains"]
     vf.write_ndjson(trace + ".ok", good)
-    res = vf.tlc("Trace_Domains", env={"TRACE": trace + ".ok"}, workers=1, timeout=900, dfs=True, coverage=False)
-    ck.add_tlc(res, "Trace_Domains")
-    vf.tlc_must_run(res, "Trace_Domains")
-    if res.violated:
-        # first unmatched record
-        bad = None
-        for line in res.prints:
-            if "TRACE-REJECTED" in line:
-                bad = line
-        idx = res.distinct - 1 if res.distinct else 0
-        rec = good[idx] if idx < len(good) else None
-        p = ck.replay_file("domains_trace.ndjson", open(trace + ".ok").read())
-        ck.violation(f"trace:t={rec and rec['t']},c={rec and rec['c']}", "StarkDomains::new result is not the spec's domain", {"record": rec, "tlc": bad, "trace": p})
-    else:
-        ck.traces += 1
+    common.validate_trace(ck, "Trace_Domains", trace + ".ok", "StarkDomains::new", "trace",
+                          keyfn=lambda case, bad: f"trace:t={bad.get('t')},c={bad.get('c')}")
     for r in good:
         ck.case(f"{r['t']},{r['c']}")
     for r in good[:2] + good[-1:]:
